@@ -17,6 +17,38 @@ def cli_main(ctx, modname, **args):
         mod.get_args, lc.configure_logging = saved
 
 
+CLASS_MODULES = ["batchie.scoring.size", "batchie.scoring.rand", "batchie.scoring.gaussian_dbal", "batchie.policies.k_per_sample",
+                 "batchie.distance.mse", "batchie.retrospective", "batchie.models.sparse_combo", "batchie.models.sparse_combo_interaction"]
+
+
+def cli_argv(ctx, modname, argv):
+    """run a batchie CLI entry point through its own argument parser: sys.argv is set, get_args() runs as written.  Only
+    the lookup of a class by name (introspection.get_class walks the installed package with importlib) is answered from
+    the modules loaded by the verification loader, and logging configuration is given an empty body."""
+    import sys
+    mod = ctx.mod(modname)
+    lc = ctx.mod("batchie.log_config")
+    intro = ctx.mod("batchie.introspection")
+    saved = (sys.argv, lc.configure_logging, intro.get_class)
+
+    def get_class(package_name, class_name, base_class):
+        for m in CLASS_MODULES:
+            cls = getattr(ctx.mod(m), class_name, None)
+            if cls is not None:
+                if not issubclass(cls, base_class):
+                    raise ValueError("The class '%s' is not a subclass of '%s'" % (class_name, base_class.__name__))
+                return cls
+        return None
+    sys.argv = [modname.rsplit(".", 1)[-1]] + [str(a) for a in argv]
+    lc.configure_logging = lambda a: None
+    if ctx.mode != "real":
+        intro.get_class = get_class
+    try:
+        return mod.main()
+    finally:
+        sys.argv, lc.configure_logging, intro.get_class = saved
+
+
 def flat(x):
     if isinstance(x, (list, tuple)):
         out = []
